@@ -426,7 +426,9 @@ def run_real(ctx, ob, extra_defs=None):
             if role == 'witness': has_witness = True
             else: props.append(PropRes(name, desc, 'holds', locs, info='trivial (simplified by symex)'))
             continue
-        r = RW(nomissing=opts.get('nomissing', False), divnz=opts.get('divnz', True))
+        dz = opts.get('divnz', True)
+        if opts.get('divnz_if_excluded'): dz = bool(extra_defs and any(k.startswith('LSV_EXCL_') for k in extra_defs))     # the nonzero-divisor precondition IS the excluded region of a listed finding
+        r = RW(nomissing=opts.get('nomissing', False), divnz=dz)
         try:
             ex = r.convert(src)
         except Unsupported as x:
